@@ -63,7 +63,13 @@ fn count_history(ctx: &Ctx, s: &CountSampler, prior: u64, hist: &mut Vec<(usize,
         let mut child = s.clone();
         ctx.evals(1);
         ctx.transitions(1);
-        let r = catch(|| child.run(c, d));
+        // more chains than worker threads must not matter: histories of multi-chain samplers also run inside a small private pool
+        let r = if n_chains >= 3 && hist.len() % 2 == 1 {
+            let pool = rayon::ThreadPoolBuilder::new().num_threads(2 + (n_chains % 2)).build().expect("rayon pool");
+            catch(|| pool.install(|| child.run(c, d)))
+        } else {
+            catch(|| child.run(c, d))
+        };
         let mut ok = true;
         match r {
             Err(m) => {
